@@ -28,6 +28,8 @@ use std::panic::{catch_unwind, AssertUnwindSafe};
 // composite glyphs and the cmap writers (case kinds cg, cms, cmsrd, cmapv, cmaprd, filec)
 #[path = "../c15_glyfcmap.rs"]
 mod gc;
+#[path = "../c15_ivs.rs"]
+mod ivs;
 
 fn werr(e: &WriteError) -> &'static str {
     match e {
@@ -1311,6 +1313,10 @@ fn run(input: &str) -> String {
         "cmsrd" => gc::run_cmsrd(&p),
         "cmapv" => gc::run_cmapv(&p),
         "cmaprd" => gc::run_cmaprd(&p),
+        "ivd" => ivs::run_ivd(&p),
+        "vrl" => ivs::run_vrl(&p),
+        "ivs" => ivs::run_ivs(&p),
+        "cff2f" => ivs::run_cff2f(&p, &std::env::var("VERIF_REPO").unwrap_or_else(|_| "/repo".to_string())),
         "filec" => gc::run_filec(&p, &std::env::var("VERIF_REPO").unwrap_or_else(|_| "/repo".to_string())),
         _ => panic!("kind {}", p[0]),
     }));
@@ -1764,6 +1770,10 @@ fn gen(rng: &mut Rng) -> String {
     // composite glyphs and cmap: 24% of the cases
     if rng.chance(1, 25) {
         return gen_arr(rng);
+    }
+    // item variation stores: 8% of the cases
+    if rng.chance(2, 25) {
+        return ivs::gen_ivs(rng, &mut mutate);
     }
     let k = rng.below(100);
     if k < 24 {
